@@ -488,8 +488,16 @@ size_t varintAdaptiveDecode(const uint8_t *src, uint64_t *values,
     }
 
     case VARINT_ADAPTIVE_DICT: {
-        /* Dict encoding is self-describing, pass large buffer size */
-        decoded = varintDictDecodeInto(data, 1024 * 1024, values, maxCount);
+        /* Dict encoding is self-describing; bound the source length by the
+         * largest payload maxCount values can produce (the dictionary holds
+         * at most maxCount entries of 9 bytes, each index is at most 4 bytes) */
+        size_t srcBound;
+        if (size_mul_overflow(maxCount, 9 + 4, &srcBound) ||
+            srcBound > SIZE_MAX / 2) {
+            break;
+        }
+        srcBound += 9 + 9;
+        decoded = varintDictDecodeInto(data, srcBound, values, maxCount);
         break;
     }
 
